@@ -341,3 +341,5 @@ M("gg-rcr-mean", GG, "        return self.pbm.SecondMomentFromN(x) / self.pbm.Fi
   ["C18:graingrowth"], ["growth_law_not_volume_conserving", "mean_grain_size_decreases"], "critical radius taken as the number-mean radius (the growth law no longer conserves volume)")
 M("mob-correction-tracer", MOB, "    return R * T * mobility_from_composition_set(composition_set, mobility_callables, mobility_correction, parameters)", "    return R * T * mobility_from_composition_set(composition_set, mobility_callables, None, parameters)",
   ["C10"], ["mobility_correction_not_applied", "tracer_not_RT_mobility", "darken_relation"], "tracer diffusivities ignore the mobility correction factors")
+M("el-setshape-params", EF, "        self.description = newDescription\n        self.description.params = self.params", "        self.description = newDescription\n        if isinstance(shape, str):\n            self.description.params = self.params",
+  ["C16:quadratic"], ["entry_point_matters", "energy_not_finite"], "a description object passed to setShape (also by the typed setters) is not connected to the material parameters")
